@@ -492,115 +492,3 @@ path!(
     c10f_path_remove_and_psk: 2, true;
     c10f_path_gce_and_psk: 6, true
 );
-
-// ------------------------------------------------------------------ PSK proposals
-/// §12.2: a proposal list is invalid if "it contains multiple PreSharedKey proposals that reference
-/// the same PreSharedKeyID", if a PSK nonce is not KDF.Nh bytes long (§8.4), or if an external PSK
-/// is not available. Three external-PSK proposals; ids drawn from a 4-entry store with symbolic
-/// contents; each is by value or by reference (symbolic); nonce lengths concrete per instance.
-pub struct Store {
-    known: [bool; 4],
-}
-#[derive(Debug)]
-pub struct StoreError;
-impl mls_rs_core::error::IntoAnyError for StoreError {}
-impl mls_rs_core::psk::PreSharedKeyStorage for Store {
-    type Error = StoreError;
-    fn get(&self, id: &mls_rs_core::psk::ExternalPskId) -> Result<Option<mls_rs_core::psk::PreSharedKey>, StoreError> {
-        let b = id.as_ref()[0];
-        if b < 4 && self.known[b as usize] {
-            Ok(Some(mls_rs_core::psk::PreSharedKey::new(Vec::new())))
-        } else {
-            Ok(None)
-        }
-    }
-}
-
-fn psk_case(nonce_ok: [bool; 3]) {
-    use crate::models::uf::Uf;
-    let store = Store { known: kani::any() };
-    let id: [u8; 3] = kani::any();
-    kani::assume(id[0] < 4 && id[1] < 4 && id[2] < 4);
-    let nb: [u8; 3] = kani::any(); // first nonce byte (second is 0): equal ids with different nonces are different PSK ids
-    let by_ref: [bool; 3] = kani::any();
-    let nonce = |i: usize| {
-        let mut v = Vec::with_capacity(2);
-        v.push(nb[i]);
-        if nonce_ok[i] {
-            v.push(0);
-        }
-        v
-    };
-    let build = || {
-        let mut b = ProposalBundle::default();
-        let mut i = 0;
-        while i < 3 {
-            b.add(
-                mk::proposal_psk_external(Vec::from([id[i]]), nonce(i)),
-                Sender::Member(i as u32),
-                source(if by_ref[i] { 1 } else { 0 }, i as u8),
-            );
-            i += 1;
-        }
-        b
-    };
-    // reference: proposal i is an offender iff its nonce length is wrong, or an earlier proposal
-    // (kept or not) has the same PreSharedKeyID (id and nonce), or the store lacks its id
-    let same = |i: usize, j: usize| id[i] == id[j] && nb[i] == nb[j] && nonce_ok[i] == nonce_ok[j];
-    let bad0 = !nonce_ok[0] || !store.known[id[0] as usize];
-    let bad1 = !nonce_ok[1] || same(1, 0) || !store.known[id[1] as usize];
-    let bad2 = !nonce_ok[2] || same(2, 0) || same(2, 1) || !store.known[id[2] as usize];
-    let any_bad = bad0 || bad1 || bad2;
-    let bad_by_value = (bad0 && !by_ref[0]) || (bad1 && !by_ref[1]) || (bad2 && !by_ref[2]);
-    let uf = Uf::fresh();
-
-    match out(filter_out_invalid_psks_v(recv(), &uf, build(), &store)) {
-        Out::Kept(b) => {
-            assert!(!any_bad, "receiver accepts a duplicate, unknown or malformed PSK proposal");
-            assert!(b.psk_proposals().len() == 3);
-            forget(b);
-        }
-        Out::Rejected(e) => {
-            assert!(any_bad, "receiver rejects a valid PSK proposal list");
-            forget(e);
-        }
-    }
-    match out(filter_out_invalid_psks_v(send(), &uf, build(), &store)) {
-        Out::Kept(b) => {
-            assert!(!bad_by_value, "an offending PSK proposal is committed by value");
-            let want = 3 - (bad0 as usize) - (bad1 as usize) - (bad2 as usize);
-            let kept = b.psk_proposals().len();
-            assert!(kept == want, "sender drops exactly the by-reference offenders");
-            // the survivors are the non-offenders, in order (senders 0,1,2 identify them)
-            let mut k = 0;
-            if !bad0 {
-                assert!(*b.psk_proposals()[k].sender() == Sender::Member(0), "a valid PSK proposal was dropped instead of an offender");
-                k += 1;
-            }
-            if !bad1 {
-                assert!(*b.psk_proposals()[k].sender() == Sender::Member(1), "a valid PSK proposal was dropped instead of an offender");
-                k += 1;
-            }
-            if !bad2 {
-                assert!(*b.psk_proposals()[k].sender() == Sender::Member(2), "a valid PSK proposal was dropped instead of an offender");
-            }
-            forget(b);
-        }
-        Out::Rejected(e) => {
-            assert!(bad_by_value, "sender fails although every offender came by reference");
-            forget(e);
-        }
-    }
-    kani::cover!(bad0 && bad1 && by_ref[0] && by_ref[1] && !bad2, "two by-reference offenders before a valid proposal");
-    kani::cover!(!any_bad, "all valid");
-}
-#[kani::proof]
-#[kani::unwind(6)]
-fn c10f_psk_three_nonces_ok() {
-    psk_case([true, true, true]);
-}
-#[kani::proof]
-#[kani::unwind(6)]
-fn c10f_psk_three_short_nonces_first_two() {
-    psk_case([false, false, true]);
-}
